@@ -117,3 +117,104 @@ def run_c07(ck):
         "a block comment directly after a token without a blank in front is not generated (known sensitivity F14)",
     ]
     return ck.finish(rule="generated size-static programs x %d re-renderings each; distinct = program index minus skipped" % k)
+
+
+def claim_of(P, r):
+    """the final state a successful run claims, aligned with the abstract items
+    (glue: walks the hook events of the last pass in order)"""
+    events = r.get("events") or []
+    last = None
+    for i, e in enumerate(events):
+        if e.get("ev") == "pass":
+            last = i
+    if last is None:
+        return None
+    nodes = [e for e in events[last + 1:] if e.get("ev") == "node"]
+    pos, sizes, bits = [], [], []
+    k = 0
+    for it in P["items"]:
+        need = len(it["es"]) if it["k"] == "data" else 1
+        if k + need > len(nodes):
+            return None
+        evs = nodes[k:k + need]
+        k += need
+        kind = {"label": "label", "const": "const", "instr": "instr", "data": "data", "res": "res",
+                "align": "align", "addr": "addr"}[it["k"]]
+        if any(e["kind"] != kind for e in evs):
+            return None
+        pos.append(evs[0]["pos"])
+        if it["k"] in ("instr", "data"):
+            sizes.append([e["size"] if e["size"] is not None else 0 for e in evs])
+            bits.append([[1 if c == "1" else 0 for c in (e["bits"] or "")] for e in evs])
+        else:
+            sizes.append([0])
+            bits.append([[]])
+    if k != len(nodes):
+        return None
+    syms = []
+    for s in r.get("symbols", []):
+        v = s["value"]
+        isint = v.get("t") == "int"
+        wide = isint and (len(str(v["v"])) > 11 or not (-BIG < int(v["v"]) < BIG))
+        syms.append({"name": s["name"], "int": isint, "wide": bool(wide), "v": int(v["v"]) if isint and not wide else 0})
+    return {"pos": pos, "sizes": sizes, "bits": bits, "syms": syms}
+
+
+def certificates(ck, seed, nprog, budgets, switches):
+    """C02, semantic level: cascading-size programs under budgets x switches;
+    every successful run's claimed final state is certified against the rules."""
+    rng = random.Random(seed)
+    progs = [genasm.gen_cascade_program(rng) for _ in range(nprog)]
+    jobs, owner = [], []
+    for pi, P in enumerate(progs):
+        text = genasm.render_program(P)
+        for b in budgets:
+            for (os_, om) in switches:
+                jobs.append({"mode": "asm", "files": {"main.asm": text}, "roots": ["main.asm"],
+                             "opts": {"budget": b, "opt_static": os_, "opt_matcher": om},
+                             "want": {"messages": False, "spans": False}})
+                owner.append(pi)
+    results = common.run_jobs(jobs, ck.wd + "/certjobs")
+    ck.evaluations += len(jobs)
+    events = []
+    seen = set()
+    stats = {"ok_runs": 0, "failed_runs": 0, "distinct_final_states": 0, "multi_pass": 0}
+    for i, r in enumerate(results):
+        if r.get("crash") or r.get("panic"):
+            ck.violation("panic:%s@%s" % (str(r.get("panic") or r.get("crash"))[:60], r.get("panic_at", "")),
+                         {"source": jobs[i]["files"]["main.asm"][:800], "opts": jobs[i]["opts"]}, {"job": jobs[i]})
+            continue
+        if r.get("error") or not r.get("has_output"):
+            stats["failed_runs"] += 1
+            continue
+        stats["ok_runs"] += 1
+        if (r.get("iters") or 0) > 1:
+            stats["multi_pass"] += 1
+        claim = claim_of(progs[owner[i]], r)
+        if claim is None:
+            ck.violation("glue:cannot-align-events", {"source": jobs[i]["files"]["main.asm"][:500]}, {"job": jobs[i]})
+            continue
+        key = (owner[i], json_key(claim))
+        if key in seen:
+            continue               # the same claimed state was already certified for this program
+        seen.add(key)
+        events.append({"ev": "cert", "case": i, "prog": progs[owner[i]], "claim": claim})
+        if len(events) % 150 == 1:
+            ck.sample({"source": jobs[i]["files"]["main.asm"], "opts": jobs[i]["opts"], "iters": r.get("iters"),
+                       "claimed_sizes": claim["sizes"], "symbols": claim["syms"]}, limit=4)
+    stats["distinct_final_states"] = len(events)
+    ck.extra["certificates"] = stats
+    failed = tv.judge(ck, "TraceAsm", "TraceAsm.cfg", events, ck.wd, tag="cert", shard=150, timeout=2400)
+    ck.traces += len(events)
+    for case in sorted(failed):
+        for tag in sorted(set(failed[case])):
+            ck.violation("TraceAsm:" + tag, {"verdict": tag, "source": jobs[case]["files"]["main.asm"], "opts": jobs[case]["opts"],
+                                             "iters": results[case].get("iters"), "bits": results[case].get("bits", "")[:160]},
+                         {"job": jobs[case], "prog": progs[owner[case]], "spec": "TraceAsm"})
+    for kk in range(len(events)):
+        ck.nontrivial_add(("cert", events[kk]["case"]))
+
+
+def json_key(x):
+    import json
+    return json.dumps(x, sort_keys=True)
